@@ -199,6 +199,13 @@ pub fn check_program(ctx: &Ctx, name: &str, p: &Program, split: bool, use_cli: b
         }
         Ok(_) => {
             acc.count("analysis_succeeded", 1);
+            if name.starts_with("must-fail:") {
+                acc.violation(
+                    format!("C16|{name}|silent|function-without-return"),
+                    format!("{name}: every path of the called function ends in an exit ecall (the `ret` behind them is dead), yet the analysis goes on without 'Function without return'"),
+                    replay.clone(),
+                );
+            }
         }
     }
     // ---- default CLI output must show the failure
